@@ -96,7 +96,7 @@ TEXTS.update({
     "C09": _t("rank vs rank_prefetch on the same object for valid and invalid arguments (relation judged by TLC), and the same behaviours executed with the crate feature prefetch on and off, whose outcomes TLC requires to be identical; unchecked-index hook on the prefetch sample lookup.", _TV + "; cross-build trace comparison"),
     "C10": _t("Unchecked methods are called only where the specification's precondition holds (TLC re-checks it) and must equal the checked twin, in the optimized build and in the build with debug assertions and overflow checks.", _TV + "; relation unchecked = checked on spec-legal arguments in two build profiles"),
     "C11": _t("bincode round trip of every serializable kind: success, equality, and identical answers of original and copy on full query grids, judged by TLC.", _TV),
-    "C12": _t("Every call word over {next, next_back, len} up to |S|+2 (quick) / |S|+3 (thorough) on every tree kind, forward histories on bit/quad/position iterators including calls after exhaustion; TLC folds the specification's iterator step function over each word.", _TV + "; exhaustive call words on small sequences"),
+    "C12": _t("Every call word over {next, next_back, len} up to |S|+2 (quick) / |S|+3 (thorough) on every tree kind, forward histories on bit/quad/position iterators including calls after exhaustion, random words with the skipping calls nth(1)/nth(3)/nth_back(2); TLC folds the specification's iterator step function over each word. Thorough: the iterator machine's inductive invariant by Apalache and a TLAPS proof (unbounded length, nth(k) for every k).", _TV + "; TLC-enumerated call words (LibIt.tla) replayed on the implementation"),
     "C13": _t("Every QVectorBuilder push/extend history of length 2 (quick) / 3 (thorough) over the argument sets of Gen_qb_*.cfg is enumerated by TLC from the LibQB state machine and replayed on the real builder; random longer histories and collection from all twelve integer types with negative and large values; TLC computes v mod 4 in two's complement from the logged values; iteration through next and the skipping calls nth(1)/nth(3).", _TV + "; TLC-enumerated builder histories (LibQB.tla) replayed on the implementation"),
     "C19": _t("Every construction path, clone, rebuild-from-iterator and wider carrier type of the same input must answer identically and (non-Huffman) compare equal; one-element edits must compare unequal.", _TV),
 })
@@ -116,9 +116,9 @@ TEXTS.update({
                "Trusted: the harness's counting global allocator (requested bytes, live at the end of construction), TLC. The per-level constants (1 KiB, 2 KiB with prefetch support, 512 B for binary levels) are the 'term proportional to the number of levels' of the statement."),
     "C15": _t("For Huffman-shaped trees TLC computes an upper bound of n*H0 from the symbol counts (fixed-point log2, rounded so that the bound is never stricter than stated) and checks level data <= n*(H0 + 2 | 1), level data <= plain tree's level data, and heap <= per-level layout bound + symbol-indexed tables.", _TV + "; Space.tla entropy bound with a fixed-point log2 table",
                "The per-level lengths are read from the value's own serialized form (field `lens`) by a field-extracting serializer in the harness. A code that is non-optimal by less than about 0.05 bit/symbol is not detected."),
-    "C16": _t("space_usage_byte() against heap + size_of for every SpaceUsage kind and construction path: |reported - actual| <= 4 % + 256 B per component (+ 2304 B + 72 B per symbol value for Huffman code tables), and KiB/MiB/GiB equal the byte figure scaled (exact in f64).", _TV + "; Space.tla reported-vs-retained relation"),
+    "C16": _t("space_usage_byte() against heap + size_of for every SpaceUsage kind and construction path: |reported - actual| <= 4 % + 256 B per component (+ 2304 B + 72 B per symbol value for Huffman code tables), and KiB/MiB/GiB equal the byte figure scaled (exact in f64); also the std containers the crate implements SpaceUsage for (Vec<T> with and without spare capacity, Box<[T]> of primitives, of Vecs, of boxed slices and of BitVectors of unequal sizes).", _TV + "; Space.tla reported-vs-retained relation"),
     "C17": _t("select_in_word over the whole in-byte table in every byte lane, few-bit, full-byte and random words; the u128 variant across the 64-bit seam; popcnt_wide, msb on all powers of two +-1 per type, stable partitions on all short sequences embedded at boundary shifts of every element type, text_remap on all short byte strings: each outcome computed independently by TLC from the definition.", _TV + "; exhaustive small families per primitive"),
-    "C18": _t("Send + Sync decided by a compile-time probe crate; purity by bit-identical bincode serialization before/after query batches run twice; sharing by 2-16 threads released together on one reference, every thread's answers compared with the sequential answers, which TLC judges against the clause tables.", _TV + "; compile-time auto-trait probe; sampled thread schedules"),
+    "C18": _t("Send + Sync decided by a compile-time probe crate; purity by bit-identical bincode serialization before/after query batches run twice; history independence by asking every query grid in four different orders (per thread and per repetition) and comparing answers per query; sharing by 2-16 threads released together on one reference, every thread's answers compared with the sequential answers, which TLC judges against the clause tables. Conc.tla model-checks the schedule space of the pure design and of four impure designs (two must fail).", _TV + "; compile-time auto-trait probe; sampled thread schedules; TLC schedule model Conc.tla"),
 })
 for _p in list(NOT_APPLICABLE):
     if _p in PLAN:
